@@ -21,15 +21,16 @@ theorem wire_packets (unknown : List Nat) (total : Nat) (ps : List Bytes) (i : N
 theorem payloads_ne_nil (cfg : Config) (st : State) : payloads cfg st ≠ [] := by
   unfold payloads; split <;> simp
 
-/-- the receive loop on the SPEC's data packets in any order of arrival -/
-theorem feed_arrival (cfg : Config) (st : State)
-    (hcount : (payloads cfg st).length ≤ 128) (hpay : ∀ p ∈ payloads cfg st, p ≠ [])
-    (hsize : ∀ d ∈ dataPackets cfg st, d.length ≤ PACKET_SIZE)
-    (arrival : List Bytes) (h : arrival.Perm (dataPackets cfg st)) :
-    feed Acc.init (arrival.map decodeFrag) = .ok (payloads cfg st) := by
-  have hdec : (arrival.map decodeFrag).Perm ((frags (payloads cfg st)).map .ok) := by
+/-- the receive loop on the data packets of any non-empty list of non-empty payloads, in any order of
+arrival -/
+theorem feed_arrival_ps (unknown : List Nat) (ps : List Bytes) (hne : ps ≠ [])
+    (hcount : ps.length ≤ 128) (hpay : ∀ p ∈ ps, p ≠ [])
+    (hsize : ∀ d ∈ packetsFrom unknown ps.length 0 ps, d.length ≤ PACKET_SIZE)
+    (arrival : List Bytes) (h : arrival.Perm (packetsFrom unknown ps.length 0 ps)) :
+    feed Acc.init (arrival.map decodeFrag) = .ok ps := by
+  have hdec : (arrival.map decodeFrag).Perm ((frags ps).map .ok) := by
     have := h.map decodeFrag
-    rwa [dataPackets, wire_packets _ _ _ 0 (by omega) hsize] at this
+    rwa [wire_packets _ _ _ 0 (by omega) hsize] at this
   have hall : ∀ r ∈ arrival.map decodeFrag, ∃ f, r = .ok f := by
     intro r hr
     obtain ⟨f, _, rfl⟩ := List.mem_map.mp (hdec.subset hr)
@@ -45,18 +46,26 @@ theorem feed_arrival (cfg : Config) (st : State)
       exact ⟨f :: L, rfl⟩
   obtain ⟨L, hL⟩ := hex _ hall
   rw [hL] at hdec ⊢
-  have hperm : L.Perm (frags (payloads cfg st)) := by
+  have hperm : L.Perm (frags ps) := by
     have hg := hdec.map (fun r : Res Frag => match r with
       | .ok f => f
       | _ => ⟨0, false, []⟩)
     simpa [List.map_map, Function.comp_def] using hg
-  have hids : (ids L).Perm (List.range (payloads cfg st).length) := by
+  have hids : (ids L).Perm (List.range ps.length) := by
     rw [← ids_frags]; exact hperm.map _
-  rcases feed_frags (payloads cfg st) (payloads_ne_nil cfg st) hpay L [] Acc.init (Rep.init _) (by simp [ids])
+  rcases feed_frags ps hne hpay L [] Acc.init (Rep.init _) (by simp [ids])
       (fun f hf => (mem_frags _ f).mp (hperm.subset (by simpa using hf)))
       (fun i hi => by simpa using hids.symm.subset (List.mem_range.mpr hi)) with hok | ⟨_, hdup⟩
   · exact hok
   · exact absurd (hids.symm.nodup List.nodup_range) (by simpa using hdup)
+
+/-- the receive loop on the SPEC's data packets in any order of arrival -/
+theorem feed_arrival (cfg : Config) (st : State)
+    (hcount : (payloads cfg st).length ≤ 128) (hpay : ∀ p ∈ payloads cfg st, p ≠ [])
+    (hsize : ∀ d ∈ dataPackets cfg st, d.length ≤ PACKET_SIZE)
+    (arrival : List Bytes) (h : arrival.Perm (dataPackets cfg st)) :
+    feed Acc.init (arrival.map decodeFrag) = .ok (payloads cfg st) :=
+  feed_arrival_ps cfg.unknown (payloads cfg st) (payloads_ne_nil cfg st) hcount hpay hsize arrival h
 
 theorem encSlice_ne_nil (st : State) (sl : Slice) : encSlice st sl ≠ [] := by
   simp [encSlice, cstr]
@@ -101,21 +110,23 @@ theorem retry_ok {f : Q α} {w : Net} {a : α} (r : Nat) (h : (f w).1 = .ok a) :
       subst h
       rfl
 
-/-- The whole exchange against the SPEC's server for a well-formed state — handshake reply, then the
-data packets in ANY order of arrival, then silence; no send fails: the post-processing `post` is
-applied to the SPEC's payloads, and the client has sent exactly the SPEC's two requests. -/
-theorem exchange_spec (cfg : Config) (st : State) (h : wf cfg st = true) (port r : Nat) {α : Type}
-    (post : List Bytes → Res α) (arrival : List Bytes) (harr : arrival.Perm (dataPackets cfg st)) :
+/-- The whole exchange against a server that answers the handshake with challenge `c` and then sends
+the data packets of the payloads `ps` in ANY order of arrival, then silence; no send fails: the
+post-processing `post` is applied to `ps`, and the client has sent exactly the two requests. -/
+theorem exchange_wire (c : Int) (hlo : -(2 ^ 31 : Int) ≤ c) (hhi : c < 2 ^ 31) (unknown : List Nat) (ps : List Bytes)
+    (hne : ps ≠ []) (hcount : ps.length ≤ 128) (hpay : ∀ p ∈ ps, p ≠ [])
+    (hsize : ∀ d ∈ packetsFrom unknown ps.length 0 ps, d.length ≤ PACKET_SIZE)
+    (port r : Nat) {α : Type} (post : List Bytes → Res α)
+    (arrival : List Bytes) (harr : arrival.Perm (packetsFrom unknown ps.length 0 ps)) :
     (exchange port r DEFAULT_PAYLOAD false post
-        (Net.init [.opened ((handshakeReply cfg.challenge :: arrival).map .data)] [])).1 = post (payloads cfg st)
+        (Net.init [.opened ((handshakeReply c :: arrival).map .data)] [])).1 = post ps
     ∧ sentOf (exchange port r DEFAULT_PAYLOAD false post
-        (Net.init [.opened ((handshakeReply cfg.challenge :: arrival).map .data)] [])).2.log = requests cfg := by
-  obtain ⟨hcount, hpay, hsize, hlo, hhi⟩ := wf_wire cfg st h
+        (Net.init [.opened ((handshakeReply c :: arrival).map .data)] [])).2.log = [handshakeRequest, dataRequest c] := by
   let s : Sock := ⟨0, port, false⟩
-  let w1 : Net := ⟨[], [(handshakeReply cfg.challenge :: arrival).map .data], [], [.opened 0 false port false]⟩
-  have hopen : openSock false port (Net.init [.opened ((handshakeReply cfg.challenge :: arrival).map .data)] []) = (.ok s, w1) := rfl
-  obtain ⟨himpl, hsent⟩ := impl_after_handshake s rfl DEFAULT_PAYLOAD w1 cfg.challenge hlo hhi arrival rfl rfl
-  rw [feed_arrival cfg st hcount hpay hsize arrival harr] at himpl
+  let w1 : Net := ⟨[], [(handshakeReply c :: arrival).map .data], [], [.opened 0 false port false]⟩
+  have hopen : openSock false port (Net.init [.opened ((handshakeReply c :: arrival).map .data)] []) = (.ok s, w1) := rfl
+  obtain ⟨himpl, hsent⟩ := impl_after_handshake s rfl DEFAULT_PAYLOAD w1 c hlo hhi arrival rfl rfl
+  rw [feed_arrival_ps unknown ps hne hcount hpay hsize arrival harr] at himpl
   have hretry : getServerPackets s r DEFAULT_PAYLOAD false w1 = getServerPacketsImpl s DEFAULT_PAYLOAD false w1 :=
     retry_ok r himpl
   unfold exchange
@@ -127,8 +138,8 @@ theorem exchange_spec (cfg : Config) (st : State) (h : wf cfg st = true) (port r
     subst himpl
     simp only [Q.lift, true_and]
     rw [hsent]
-    have e := C09_request_bytes cfg.challenge
-    simp [sentOf, w1, requests, e.1, e.2]
+    have e := C09_request_bytes c
+    simp [sentOf, w1, e.1, e.2]
 where
   C09_request_bytes (c : Int) :
       requestBytes 9 none none = handshakeRequest
@@ -142,5 +153,18 @@ where
         have h1 : natBE 2 65277 ++ [UInt8.ofNat 0] ++ natBE 4 SESSION_ID = [0xFE, 0xFD, 0x00] ++ sessionId := by decide
         rw [h1]
         rfl
+
+/-- The whole exchange against the SPEC's server for a well-formed state — handshake reply, then the
+data packets in ANY order of arrival, then silence; no send fails: the post-processing `post` is
+applied to the SPEC's payloads, and the client has sent exactly the SPEC's two requests. -/
+theorem exchange_spec (cfg : Config) (st : State) (h : wf cfg st = true) (port r : Nat) {α : Type}
+    (post : List Bytes → Res α) (arrival : List Bytes) (harr : arrival.Perm (dataPackets cfg st)) :
+    (exchange port r DEFAULT_PAYLOAD false post
+        (Net.init [.opened ((handshakeReply cfg.challenge :: arrival).map .data)] [])).1 = post (payloads cfg st)
+    ∧ sentOf (exchange port r DEFAULT_PAYLOAD false post
+        (Net.init [.opened ((handshakeReply cfg.challenge :: arrival).map .data)] [])).2.log = requests cfg := by
+  obtain ⟨hcount, hpay, hsize, hlo, hhi⟩ := wf_wire cfg st h
+  exact exchange_wire cfg.challenge hlo hhi cfg.unknown (payloads cfg st) (payloads_ne_nil cfg st) hcount hpay hsize
+    port r post arrival harr
 
 end Gd.Gs3
